@@ -4,6 +4,7 @@ pub mod c03;
 pub mod c04;
 pub mod c05;
 pub mod c10;
+pub mod c11;
 
 use crate::report::Report;
 
@@ -40,6 +41,7 @@ pub fn run(id: &str, report: &mut Report, replay: Option<&str>) {
         "C04" => c04::run(report, replay_val.as_ref()),
         "C05" => c05::run(report, replay_val.as_ref()),
         "C10" => c10::run(report, replay_val.as_ref()),
+        "C11" => c11::run(report, replay_val.as_ref()),
         _ => {
             eprintln!("unknown property {}", id);
             std::process::exit(2);
